@@ -320,6 +320,14 @@ def txIds (g : Gene) (t : Tx) : List (Str × Option Str) :=
   [(kTranscriptId, set? t.txId), (kTranscriptName, set? t.txSymbol), (kGene, geneSymbolWritten g),
    (kLocusTag, geneTagWritten g)]
 
+/-- frames of ONE uninterrupted reading frame that starts with `f` skipped bases (C05's clause, reused) -/
+def okFramesOf (st : Strand) (cds : List Blk) (f : Nat) (frames : List CDSFrame) : Bool :=
+  frames.all (· != .NONE) && Spec.okFrames ⟨cds, st⟩ f (some (frames.map frameNat))
+
+/-- the source CDS is read in one frame (no programmed frameshift: a GenBank location cannot express one, so an
+    independent reader cannot reproduce its translation) -/
+def Tx.oneFrame (t : Tx) : Bool := okFramesOf t.strand t.cds (startFrameNat t) t.frames
+
 /-- the CDS record(s) of a transcript: type, blocks, strand, ids; then reading frame and translation -/
 def cdsClauses (fl : Flavor) (trans : Bool) (seq : Option Str) (ans : List Rec) (g : Gene) (t : Tx) : List String :=
   let ids := txIds g t ++ [(kProteinId, set? t.proteinId)]
@@ -329,7 +337,7 @@ def cdsClauses (fl : Flavor) (trans : Bool) (seq : Option Str) (ans : List Rec) 
   | r :: _ =>
     (if readerFrame r == some (startFrameNat t) then [] else [s!"codon_start{cdsClass t}"]) ++
     (match trans, seq with
-     | true, some s => if okTranslationOf fl s r then [] else [s!"translation{cdsClass t}"]
+     | true, some s => if !t.oneFrame || okTranslationOf fl s r then [] else [s!"translation{cdsClass t}"]
      -- not requested: a /translation the source carried as a qualifier passes through (documented: "calculated or
      -- re-calculated" only on request)
      | _, _ => [])
@@ -374,10 +382,6 @@ def okWrite (fl : Flavor) (trans : Bool) (c : Coll) (ans : Option (List Rec)) : 
   (writeViolations fl trans c ans).isEmpty
 
 /-! ### clause (b): the gene models read back -/
-
-/-- frames of ONE uninterrupted reading frame that starts with `f` skipped bases (C05's clause, reused) -/
-def okFramesOf (st : Strand) (cds : List Blk) (f : Nat) (frames : List CDSFrame) : Bool :=
-  frames.all (· != .NONE) && Spec.okFrames ⟨cds, st⟩ f (some (frames.map frameNat))
 
 /-- the transcript the documentation promises after write → parse, without the frames (checked by `okFramesOf`) -/
 def expectedTx (fl : Flavor) (g : Gene) (t : Tx) : PTx :=
